@@ -15,6 +15,7 @@
 #include <sys/syscall.h>
 #include <sys/resource.h>
 #include <poll.h>
+#include <signal.h>
 #include <dlfcn.h>
 #include <stdarg.h>
 #include <stdio.h>
@@ -448,6 +449,7 @@ int main(void) {
   struct rlimit rl;
   int ring = 1, started = 0;
   setvbuf(stdout, NULL, _IOFBF, 1 << 16);
+  signal(SIGPIPE, SIG_IGN);
   if (getrlimit(RLIMIT_NOFILE, &rl) == 0) { rl.rlim_cur = rl.rlim_max < 65536 ? rl.rlim_max : 65536; setrlimit(RLIMIT_NOFILE, &rl); }
   while (fgets(line, sizeof line, stdin)) {
     size_t len = strlen(line);
